@@ -338,7 +338,7 @@ def run(ck):
             return it.call_function(VFunc(rr), [s, api.basis_str(it), tens(it, "space", ("N", "nv"))], {"rho": api.cx_t(it, "R", ("N", "N"))}, None)
 
         paths = [p for p in paths_of(prog, thq, sticky=True, max_paths=20) if p.outcome == "return"]
-        for p in paths[:1]:
+        for p in paths:
             kc = [c for c in p.calls if c[0].endswith("_kron_mult")]
             cj = [c for c in p.calls if c[0].endswith("cplx.conjugate")]
             ok = len(kc) == 2 and len(cj) == 1 and argp(kc[0][5], 0) is argp(kc[1][5], 0) and cj[0][7].get("x") == kc[0][6] and argp(kc[1][7], 1) == cj[0][6]
@@ -568,7 +568,7 @@ def _kron_generic(ck, prog, km):
         return x, it.call_function(VFunc(km), [ms, x], {}, None)
 
     paths = [p for p in paths_of(prog, thk, sticky=True, max_paths=20) if p.outcome == "return"]
-    for p in paths[:1]:
+    for p in paths:
         x, y = p.value
         wr = [e for e in p.effects if "param:x" in e.origins and e.kind == "write"]
         ck.check(not wr and isinstance(y, VTens) and y.obj is not x.obj, "C04.R4", "_kron_mult:input not modified", site, "the rotated state is written into the caller's tensor")
